@@ -568,6 +568,29 @@ def _without_passthrough_kwarg(pkg, callee):
     return cache[id(callee)][1]
 
 
+def constructions(pkg, node, clsname: str) -> list:
+    """The calls inside `node` that construct `clsname`: `clsname(..)` / `<module>.clsname(..)` as written, and a call
+    `clsname.<factory>(..)` of a classmethod whose body is one `return cls(..)` -- as the constructor call it abbreviates (parameters
+    replaced by the arguments, at the call's position).  A rule that reads what reaches the fields sees the same call either way."""
+    from .normalize import inline_expr, _simple_callee
+    ci = pkg.classes.get(clsname)
+    out = []
+    for c in ast.walk(node):
+        if not isinstance(c, ast.Call):
+            continue
+        if ast.unparse(c.func).split(".")[-1] == clsname:
+            out.append(c)
+        elif ci is not None and isinstance(c.func, ast.Attribute) and ast.unparse(c.func.value).split(".")[-1] == clsname and c.func.attr in ci.methods:
+            callee = ci.methods[c.func.attr]
+            if [ast.unparse(d) for d in callee.decorator_list] == ["classmethod"] and _simple_callee(callee) == "expr":
+                e = inline_expr(callee, c, ast.Name(id=clsname, ctx=ast.Load()))
+                if isinstance(e, ast.Call) and ast.unparse(e.func) == clsname:
+                    for n in ast.walk(e):
+                        ast.copy_location(n, c)
+                    out.append(e)
+    return out
+
+
 def _without_setattr(mod):
     """the module minus the functions that call setattr (those are scanned in their folded form)"""
     class D(ast.NodeTransformer):
